@@ -1,6 +1,6 @@
 (* C09: heap consistency - exact reference counts, no leak, no reuse of live blocks.
-   Only statements here; proofs live in Model/Heap.v (abstract allocator, identical on the three
-   back ends).
+   Only statements here; proofs live in Model/Heap.v, Proof/HeapMore.v, Proof/HeapTrace.v (abstract
+   allocator, identical on the three back ends) and Proof/X86Mem.v (refinement to x86-64 code).
 
    The invariant `Inv s R hl fl cl` relates the allocator state s, the multiset R of pointers held by
    live variables, and the ghost partition of the blocks below the frontier into hl (reuse list),
@@ -11,15 +11,49 @@
      - (NR) no reference anywhere to a block that is not counted (no use after release, no double
        release);
      - everything at or above the frontier is zero.
-   PROVED: the invariant holds initially and is preserved by share, erase (both branches), a list of
-   erasures, acquire in all three cases (reuse list / deferred list with lazy erasure of the
-   children / bump), single-block allocation, and destructive load (release).
-   NOT YET PROVED (visible as missing theorems): non-destructive load (decrement and share the
-   children), objects chained over several blocks, and the lifting from operation traces to AxCut
-   programs (that link is checked by executing the implementation's code with the invariant
-   evaluated at every statement boundary, see the evidence). *)
-From Coq Require Import List ZArith Permutation.
-From SCC Require Import Model.Heap.
+   The strengthened invariant `InvA base s R hl fl cl` (Proof/HeapMore.v) adds:
+     - (SZ/AL/TOT) hl ++ fl ++ cl are exactly the block addresses base + k * 64 below the frontier;
+     - (POS) the header of a counted block is not negative, so it has at least one referrer;
+     - (AC) the pointer slots of counted and deferred blocks are acyclic (a rank function).
+
+   PROVED
+     * Inv holds initially and is preserved by share, erase (both branches), a list of erasures,
+       acquire (reuse list / deferred list with lazy erasure of the children / bump), single-block
+       allocation, destructive load (release)                                  [Model/Heap.v]
+     * Inv and InvA are preserved by the non-destructive load (decrement, share every non-null
+       child)                                                                  [load_share_*]
+     * InvA holds initially and is preserved by every operation above and by objects chained over
+       several blocks: alloc_object mirrors store_fields (last block first, at most 3 fields in the
+       block written first, 2 fields + link in slot 2 in the others), load_object_release /
+       load_object_share mirror load_fields in the two LoadModes (the links are neither shared nor
+       released separately)                                                    [C09_*_object_*]
+     * the operation-trace theorem: every state reached from a state satisfying InvA by a
+       sequence of operations whose preconditions hold satisfies InvA (hence Inv), with a
+       non-trivial example trace on which the preconditions hold               [C09_trace*, C09_example]
+     * the derived classification: every block below the frontier is in exactly one of hl / fl / cl;
+       a counted block has a referrer, and following referrers upward ends at a live variable
+       (reachable) or at a deferred block (waiting beneath it)                 [C09_classification, C09_no_leak]
+     * a block reachable from the live variables is on no free list; the block that erase /
+       release put on a list was on none, and the lists stay duplicate free    [C09_no_use_after_release, C09_no_double_release]
+     * refinement of share_block_n, erase_block and release_block to the emitted x86-64 code on the
+       ISA semantics, pointer in a register or a spill slot, null included, all branches; the image
+       is any image containing the code whose labels resolve to their positions (as mk_image gives
+       for duplicate-free labels)        [C09_x86_share_block, C09_x86_erase_block, C09_x86_release_block, C09_x86_image]
+
+   NOT YET PROVED (visible as missing theorems)
+     * the lifting from operation traces to AxCut programs (each statement's code is a sequence of
+       these operations with R = the pointers of the environment, and the preconditions - in
+       particular `obj_ok`: continuation blocks of an object have header 0 and no other referrer -
+       follow from typing).  That link is checked by executing the implementation's code with the
+       invariant evaluated at every statement boundary, see the evidence;
+     * refinement of acquire_block, store and load to the x86-64 code (checked operation by
+       operation against Model/Heap.step by the heapops-x86 correspondence step), and anything
+       about the AArch64 / RISC-V code;
+     * "touches no memory outside heap, spill area and pushes": faults of the ISA model in the
+       executed runs, not a theorem. *)
+From Coq Require Import List ZArith NArith Permutation FMapPositive.
+From SCC Require Import Model.Heap Proof.HeapMore Proof.HeapTrace.
+From SCC Require Model.X86 Sem.X86Sem Proof.X86State Proof.X86Mem.
 Import ListNotations.
 Open Scope Z_scope.
 
@@ -76,3 +110,167 @@ Theorem C09_roots_are_counted :
   forall s R hl fl cl p, Inv s R hl fl cl -> p <> 0 -> In p R -> In p cl.
 Proof. exact root_counted. Qed.
 Print Assumptions C09_roots_are_counted.
+
+(* ---------- non-destructive load ---------- *)
+(* `ADDIM [p], -1`, then every field loaded and its non-null pointer shared once: R loses p and
+   gains the children; the ghost lists are unchanged *)
+Theorem C09_load_share_preserves :
+  forall s R R0 hl fl cl p,
+    Inv s R hl fl cl -> p <> 0 -> Permutation R (p :: R0) -> hdr (m s p) <> 0 ->
+    Inv (load_share p s) (nz (ps (m s p)) ++ R0) hl fl cl.
+Proof. exact load_share_inv. Qed.
+Print Assumptions C09_load_share_preserves.
+
+(* ---------- the strengthened invariant and objects over several blocks ---------- *)
+Theorem C09_initial_state_A : forall base, 0 < base -> InvA base (init base) [] [base] [] [].
+Proof. exact init_invA. Qed.
+Print Assumptions C09_initial_state_A.
+
+Theorem C09_InvA_implies_Inv : forall base s R hl fl cl, InvA base s R hl fl cl -> Inv s R hl fl cl.
+Proof. exact invA_inv. Qed.
+Print Assumptions C09_InvA_implies_Inv.
+
+(* store_fields: the pointers of the fields move from R into the object; the new root is its head *)
+Theorem C09_alloc_object_preserves :
+  forall base s R R0 hl fl cl fields,
+    InvA base s R hl fl cl -> Permutation R (nz fields ++ R0) -> fields <> [] ->
+    exists hl' fl' cl',
+      InvA base (snd (alloc_object fields s)) (fst (alloc_object fields s) :: R0) hl' fl' cl' /\
+      fst (alloc_object fields s) <> 0 /\
+      fr_rel s hl (snd (alloc_object fields s)) hl' /\
+      (length cl + length fl <= length cl' + length fl')%nat.
+Proof. exact alloc_object_invA. Qed.
+Print Assumptions C09_alloc_object_preserves.
+
+(* load_fields, LoadMode::Release: k continuation blocks; precondition obj_ok = every block of the
+   object is non-null with header 0 *)
+Theorem C09_load_object_release_preserves :
+  forall base k p s R R0 hl fl cl,
+    InvA base s R hl fl cl -> Permutation R (p :: R0) -> obj_ok k (m s) p ->
+    exists hl' cl',
+      InvA base (load_object_release k p s) (nz (obj_fields k (m s) p) ++ R0) hl' fl cl' /\
+      frontier (load_object_release k p s) = frontier s.
+Proof. exact load_object_release_invA. Qed.
+Print Assumptions C09_load_object_release_preserves.
+
+(* load_fields, LoadMode::Share: precondition links_ok = the links are non-null *)
+Theorem C09_load_object_share_preserves :
+  forall base k p s R R0 hl fl cl,
+    InvA base s R hl fl cl -> p <> 0 -> Permutation R (p :: R0) -> hdr (m s p) <> 0 -> links_ok k (m s) p ->
+    InvA base (load_object_share k p s) (nz (obj_fields k (m s) p) ++ R0) hl fl cl.
+Proof. exact load_object_share_invA. Qed.
+Print Assumptions C09_load_object_share_preserves.
+
+(* ---------- operation traces ---------- *)
+Theorem C09_step_preserves :
+  forall base s R hl fl cl o,
+    InvA base s R hl fl cl -> pre s R o ->
+    exists hl' fl' cl', InvA base (step s o) (ghost s R o) hl' fl' cl' /\ fr_step s (step s o) hl'.
+Proof. exact heap_inv_step. Qed.
+Print Assumptions C09_step_preserves.
+
+Theorem C09_trace :
+  forall ops s R hl fl cl base,
+    InvA base s R hl fl cl -> pre_trace s R ops ->
+    exists hl' fl' cl', Inv (fst (grun ops (s, R))) (snd (grun ops (s, R))) hl' fl' cl'.
+Proof. exact heap_inv_trace. Qed.
+Print Assumptions C09_trace.
+
+(* every allocator state reachable from the initial state satisfies the (strengthened) invariant *)
+Theorem C09_trace_from_init :
+  forall base ops, 0 < base -> pre_trace (init base) [] ops ->
+    exists hl fl cl, InvA base (fst (grun ops (init base, []))) (snd (grun ops (init base, []))) hl fl cl.
+Proof. exact heap_inv_reachable. Qed.
+Print Assumptions C09_trace_from_init.
+
+(* the premises are satisfiable on a trace that takes every branch of every operation *)
+Theorem C09_example : pre_trace (init 4096) [] example_ops.
+Proof. exact example_pre. Qed.
+Print Assumptions C09_example.
+
+(* ---------- the derived classification ---------- *)
+Theorem C09_classification :
+  forall base s R hl fl cl a,
+    InvA base s R hl fl cl -> blk base a -> a < frontier s ->
+    (In a hl /\ ~ In a fl /\ ~ In a cl) \/
+    (In a fl /\ ~ In a hl /\ ~ In a cl) \/
+    (In a cl /\ ~ In a hl /\ ~ In a fl /\
+     (reach (m s) R a \/ reach (m s) (deferred_slots s fl) a)).
+Proof. exact classify_total_exclusive. Qed.
+Print Assumptions C09_classification.
+
+Theorem C09_no_leak :
+  forall base s R hl fl cl b,
+    InvA base s R hl fl cl -> In b cl ->
+    In b R \/ exists x, In x (cl ++ fl) /\ In b (ps (m s x)).
+Proof. exact no_leak. Qed.
+Print Assumptions C09_no_leak.
+
+Theorem C09_no_use_after_release :
+  forall s R hl fl cl b,
+    Inv s R hl fl cl -> reach (m s) R b -> In b cl /\ ~ In b hl /\ ~ In b fl.
+Proof. exact no_use_after_release. Qed.
+Print Assumptions C09_no_use_after_release.
+
+Theorem C09_no_double_release :
+  forall s R hl fl cl p,
+    Inv s R hl fl cl -> p <> 0 -> In p R ->
+    ~ In p (hl ++ fl) /\
+    (hdr (m s p) = 0 ->
+       (exists cl', Inv (erase p s) (rem1 p R) hl (p :: fl) cl' /\ NoDup (hl ++ (p :: fl) ++ cl')) /\
+       (exists cl', Inv (release p s) (nz (ps (m s p)) ++ rem1 p R) (p :: hl) fl cl' /\ NoDup ((p :: hl) ++ fl ++ cl'))).
+Proof. exact no_double_release. Qed.
+Print Assumptions C09_no_double_release.
+
+(* ---------- refinement to the x86-64 code (ISA semantics of Sem/X86Sem.v) ---------- *)
+Import Model.X86 Sem.X86Sem Proof.X86State Proof.X86Mem.
+
+Theorem C09_x86_share_block :
+  forall im pos t n lc s sp p F,
+    let cs := fst (x_share_block_n t n lc) in
+    code_at im pos cs -> labels_at im pos cs ->
+    frame_ok s sp -> loc_ok t -> lget s sp t = Some p ->
+    (p = 0 \/ is_blk p) -> fits32 (Z.of_N n) = true ->
+    (p <> 0 -> AxSem.wrap (hword s p + Z.of_N n) = hword s p + Z.of_N n) ->
+    exists s', steps im pos s (pnth pos (List.length cs)) s' /\
+       st_eqB (abs_heap F s') (Heap.share p (Z.of_N n) (abs_heap F s)) /\
+       same_but_temp s s' /\ frame_ok s' sp.
+Proof. exact x86_share_block_ok. Qed.
+Print Assumptions C09_x86_share_block.
+
+Theorem C09_x86_erase_block :
+  forall im pos t lc s sp p f F,
+    let cs := fst (x_erase_block t lc) in
+    code_at im pos cs -> labels_at im pos cs ->
+    frame_ok s sp -> loc_ok t -> lget s sp t = Some p -> rget s FREE = Some f ->
+    (p = 0 \/ is_blk p) ->
+    (p <> 0 -> hword s p <> 0 -> AxSem.wrap (hword s p + -1) = hword s p - 1) ->
+    exists s', steps im pos s (pnth pos (List.length cs)) s' /\
+       st_eqB (abs_heap F s') (Heap.erase p (abs_heap F s)) /\
+       same_but_temp_free s s' /\ frame_ok s' sp /\
+       rget s' FREE = Some (Heap.free (Heap.erase p (abs_heap F s))).
+Proof. exact x86_erase_block_ok. Qed.
+Print Assumptions C09_x86_erase_block.
+
+Theorem C09_x86_release_block :
+  forall im pos r s p h F,
+    code_at im pos (release_block r) ->
+    rget s r = Some p -> rget s HEAP = Some h -> is_blk p ->
+    exists s', steps im pos s (pnth pos 2) s' /\
+       st_eqB (abs_heap F s') (Heap.release p (abs_heap F s)) /\
+       (forall r', r' <> HEAP -> rget s' r' = rget s r') /\ stack s' = stack s /\ out s' = out s.
+Proof. exact x86_release_block_ok. Qed.
+Print Assumptions C09_x86_release_block.
+
+(* the hypotheses on the image hold for mk_image of a program with duplicate-free labels, and
+   `steps` is what the executable runner does *)
+Theorem C09_x86_image :
+  forall cs, NoDup (label_names cs) -> code_at (mk_image cs) 1%positive cs /\ labels_at (mk_image cs) 1%positive cs.
+Proof. exact mk_image_code_labels. Qed.
+Print Assumptions C09_x86_image.
+
+Theorem C09_x86_steps_run :
+  forall im pc s pc' s', steps im pc s pc' s' ->
+    exists n, forall fuel, run_chunk (n + fuel) im pc s = run_chunk fuel im pc' s'.
+Proof. exact steps_run_chunk. Qed.
+Print Assumptions C09_x86_steps_run.
